@@ -134,8 +134,8 @@ def known(d):
     if d["case"].startswith("c15_flush_") and d.get("step") == 3 and op == "readtostring":
         return "D23b"
     if op in ("setctime", "setmtime", "setatime") and (d.get("impl") or "").startswith("err:NotSupported") and \
-            (d["case"].startswith("c15_times_") or d["case"].startswith("c15_mx_")) and "async differs from sync" in d.get("note", ""):
-        return "D23a"
+            "async differs from sync" in d.get("note", "") and not any("base phys" in l for l in d.get("case_text", "").splitlines()):
+        return "D23a"      # a time setter that reaches an async MemoryFS: it implements none
     if d["case"].startswith("c15_zeroread_") and d.get("step") == 6 and op == "hread":
         return "D27"
     return None
@@ -165,7 +165,10 @@ def corpus():
         hist.open_handle_cases("c15", ["mem", "alt_mem", "ovl_mm", "ovl_m"]) + c04_sessions() + \
         hist.wo_names_cases("c15", ("ovl_mm", "ovl_sub", "ovl_mmm", "alt_ovl")) + \
         hist.reader_seek_cases("c15", ["mem", "alt_mem", "ovl_mm", "phys"]) + \
-        hist.neighbour_name_cases("c15", ["mem", "ovl_mm"])
+        hist.neighbour_name_cases("c15", ["mem", "ovl_mm"]) + \
+        hist.deleted_target_cases("c15") + hist.dotted_name_cases("c15", ["alt_mem", "alt_alt"]) + \
+        hist.size_cases("c15", ["mem", "ovl_mm"]) + hist.lower_only_cases("c15", ["ovl_mm", "ovl_mmm"]) + \
+        hist.odd_join_cases("c15", ["alt_mem", "alt_alt"])
 
 
 def generate(rng, tier):
